@@ -39,7 +39,12 @@ type propCfg struct {
 	assumptions             []string
 }
 
+var e1Assumptions = []string{"testing/synctest reports quiescence correctly (go1.26.8)", "a goroutine runs alone between two yield points except for the few instructions a goroutine woken through goalign's own channels executes before it parks", "the race detector's shadow memory (4 cells per 8 bytes) keeps the conflicting access: runs are kept small in race mode", "seeded search samples schedules, it does not enumerate them"}
+
 var props = map[string]propCfg{
+	"C16": {quick: 3000, thorough: 300000, quickRace: 800, thoroughRace: 60000, level: "exploration", stallS: 120, engine: "E1 seeded goroutine scheduler + race detector",
+		components: "real: phaser.Phase, SeqBag.SequencesChan producer goroutine, worker pool, closer goroutine, pairwise aligner, translation, SeqBag.LongestORF; environment: the harness is the consumer of the result channel (one more scheduled goroutine), yield points spliced by seamgen; stubs: none",
+		assumptions: e1Assumptions},
 	"C08": {quick: 20000, thorough: 2000000, quickRace: 5000, thoroughRace: 400000, level: "exploration", stallS: 120, engine: "E1 seeded goroutine scheduler + race detector",
 		components: "real: dna.DistMatrix, its producer/worker goroutines, sync.Mutex, sync.WaitGroup, channels, all 7 estimators; environment: model wrapper behind the public DistModel interface (delegates; injects errors), yield points spliced by seamgen; stubs: none",
 		assumptions: []string{"testing/synctest reports quiescence correctly (go1.26.8)", "a goroutine runs alone between two yield points except for the few instructions a goroutine woken through goalign's own channels executes before it parks", "the race detector's shadow memory (4 cells per 8 bytes) keeps the conflicting access: runs are kept to <= 66 pairs in race mode", "seeded search samples schedules, it does not enumerate them"}},
